@@ -23,6 +23,7 @@ RULE = ("lock-step differential against itertools.groupby: the same operation se
         "sources sync and async flavoured. non-trivial = a group was advanced after the groupby moved on, or partly "
         "consumed, or skipped; distinct = (input, key, ops)")
 ASSUMPTIONS = ["itertools.groupby of the running interpreter is the reference", "keys with reflexive equality only"]
+EXHAUSTIVE_SUBSPACES = "all operation sequences starting with 'adv' of length <= 5 (thorough: 6) over {adv, g-1, g-2, g0} on 12 fixed inputs"
 EXHAUSTIVE = {"quick": False, "thorough": False}
 N_RANDOM = {"quick": 100000, "thorough": 6000000}
 ENUM_INPUTS = [[], [0], [0, 0], [0, 1], [0, 0, 1], [0, 1, 1], [0, 1, 0], [0, 0, 1, 1], [0, 1, 1, 0], [0, 0, 0, 1, 1],
